@@ -133,7 +133,9 @@ typedef struct {
     int usefiller, usealt;
     const char *lw, *wip, *pip; /* NULL = default */
     int compallsen;
+    int frate; /* 0 = model default (100) */
 } dc_conf_t;
+static int DC_SHIFT = 160;
 
 static decoder_t *
 dc_make_decoder(const dc_conf_t *c)
@@ -160,6 +162,10 @@ dc_make_decoder(const dc_conf_t *c)
     if (c->pip)
         config_set_str(cfg, "pip", c->pip);
     config_set_bool(cfg, "compallsen", c->compallsen);
+    if (c->frate) {
+        config_set_int(cfg, "frate", c->frate);
+        DC_SHIFT = 16000 / c->frate;
+    }
     d = decoder_init(cfg);
     if (!d) {
         fprintf(stderr, "decoder_init failed\n");
@@ -359,7 +365,7 @@ dc_samples_for_frames(int T)
         return 0;
     if (T == 1)
         return 200;
-    return (size_t)410 + (size_t)(T - 2) * 160 + 80;
+    return (size_t)410 + (size_t)(T - 2) * DC_SHIFT + 80;
 }
 
 /* ---------- results ---------- */
